@@ -20,6 +20,11 @@ TARGETS = {
     "compiler": ("nsl/Compiler.py", ["Compiler"]),
     "pass": ("nsl/Pass.py", ["PassFlags", "Pass", "MakePassFromVisitor"]),
     "visitor": ("nsl/Visitor.py", ["Node", "Visitor", "DefaultVisitor"]),
+    # methods are addressed as Class.method
+    "lower_member": ("nsl/passes/LowerToIR.py", ["LowerToIRVisitor.v_MemberAccessExpression"]),
+    "lower_index": ("nsl/passes/LowerToIR.py", ["LowerToIRVisitor.v_ArrayExpression"]),
+    "lower_ctor": ("nsl/passes/LowerToIR.py", ["LowerToIRVisitor.v_ConstructPrimitiveExpression"]),
+    "lower_binary": ("nsl/passes/LowerToIR.py", ["LowerToIRVisitor.v_BinaryExpression"]),
 }
 
 
@@ -38,7 +43,14 @@ def normalised(repo, key):
     tree, _ = read_source(repo, rel)
     out = []
     for n in names:
-        hits = [x for x in tree.body if isinstance(x, (ast.ClassDef, ast.FunctionDef)) and x.name == n]
+        scope = tree.body
+        if "." in n:
+            cn, n = n.split(".")
+            cls = [x for x in tree.body if isinstance(x, ast.ClassDef) and x.name == cn]
+            if len(cls) != 1:
+                raise TranslatorAbort("%s: class %s not found exactly once" % (rel, cn))
+            scope = cls[0].body
+        hits = [x for x in scope if isinstance(x, (ast.ClassDef, ast.FunctionDef)) and x.name == n]
         if len(hits) != 1:
             raise TranslatorAbort("%s: %s not found exactly once" % (rel, n))
         out.append(ast.unparse(_Strip().visit(hits[0])))
@@ -57,6 +69,6 @@ def check(repo, key):
 
 if __name__ == "__main__":
     if sys.argv[1] == "--record":
-        for k in TARGETS:
+        for k in (sys.argv[3:] or TARGETS):
             open(os.path.join(HERE, k + ".txt"), "w").write(normalised(sys.argv[2], k))
         print("recorded", sorted(TARGETS))
